@@ -7,6 +7,7 @@ import (
 	"crypto/ecdsa"
 	"crypto/elliptic"
 	"crypto/rand"
+	"crypto/sha1"
 	"crypto/tls"
 	"crypto/x509"
 	"crypto/x509/pkix"
@@ -23,6 +24,7 @@ import (
 	"time"
 
 	"go.step.sm/crypto/jose"
+	"go.step.sm/crypto/minica"
 	"go.step.sm/crypto/randutil"
 	"golang.org/x/crypto/ssh"
 
@@ -55,12 +57,38 @@ func closeEnvs() {
 	}
 }
 
+// oldCA: root and intermediate that have existed for 90 days (the fixture's own are created "now"), so that
+// certificates which expired days ago chain to them at the time the x5cInsecure check evaluates
+// (leaf.NotAfter - 1 min): the renew-token route exists for exactly those certificates.
+func oldCA() *fixture.CA {
+	mk := func(cn string, parent *x509.Certificate, parentKey crypto.Signer, pathLen int) (*x509.Certificate, crypto.Signer) {
+		key := must(ecdsa.GenerateKey(elliptic.P256(), rand.Reader))
+		ski := sha1.Sum(elliptic.Marshal(elliptic.P256(), key.X, key.Y))
+		tpl := &x509.Certificate{SerialNumber: new(big.Int).SetBytes(must(randutil.Salt(12))), Subject: pkix.Name{CommonName: cn},
+			NotBefore: time.Now().Add(-90 * 24 * time.Hour), NotAfter: time.Now().Add(10 * 365 * 24 * time.Hour),
+			KeyUsage: x509.KeyUsageCertSign | x509.KeyUsageCRLSign, BasicConstraintsValid: true, IsCA: true, MaxPathLen: pathLen, MaxPathLenZero: pathLen == 0,
+			SubjectKeyId: ski[:]}
+		signer, signerCert := crypto.Signer(key), tpl
+		if parent != nil {
+			signer, signerCert = parentKey, parent
+		}
+		der := must(x509.CreateCertificate(rand.Reader, tpl, signerCert, &key.PublicKey, signer))
+		return must(x509.ParseCertificate(der)), key
+	}
+	root, rootKey := mk("Verif Old Root CA", nil, nil, 1)
+	inter, interKey := mk("Verif Old Intermediate CA", root, rootKey, 0)
+	jwk := must(jose.GenerateJWK("EC", "P-256", "ES256", "sig", "", 0))
+	jwk.KeyID = must(jose.Thumbprint(jwk))
+	return &fixture.CA{MiniCA: &minica.CA{Root: root, RootSigner: rootKey, Intermediate: inter, Signer: interKey}, JWK: jwk,
+		SSHUser: must(ecdsa.GenerateKey(elliptic.P256(), rand.Reader)), SSHHost: must(ecdsa.GenerateKey(elliptic.P256(), rand.Reader))}
+}
+
 func newEnv(hooks *ss.Hooks, crl bool) *env {
 	yes := true
 	// allowRenewalAfterExpiry: expired certificates stay renewable (that is what the renew-token route is
 	// for), so "revoked" has to keep blocking them after they expired
 	o := fixture.Opts{SSH: true, WrapDB: ss.Wrap(hooks), JWKClaims: &provisioner.Claims{EnableSSHCA: &yes, AllowRenewalAfterExpiry: &yes},
-		Provisioners: provisioner.List{&provisioner.SSHPOP{Type: "SSHPOP", Name: "sshpop"}}}
+		Provisioners: provisioner.List{&provisioner.SSHPOP{Type: "SSHPOP", Name: "sshpop"}}, From: oldCA()}
 	if crl {
 		o.CRL = &config.CRLConfig{Enabled: true, GenerateOnRevoke: true}
 	}
